@@ -115,7 +115,7 @@ class LawWorld(World):
 
     # ------------------------------------------------------------------
     def gen_op(self, rng, frng):
-        w = {"write": 5, "bad_write": 0.8, "read_C": 3, "read_S": 2, "sqrt": 1.5, "walpole": 0.7, "set_C": 1.5 if self.kind == "Anisotropic" else 0,
+        w = {"write": 5, "bad_write": 0.8, "scribble": 0.8 if any(isinstance(v, list) for k, v in self.p.items() if k in SCALARS[self.kind]) else 0, "read_C": 3, "read_S": 2, "sqrt": 1.5, "walpole": 0.7, "set_C": 1.5 if self.kind == "Anisotropic" else 0,
              "flag": 1.0, "observer_assemble": 1.0 if self.obs else 0}
         names = sorted(w)
         pr = np.array([w[k] for k in names], dtype=float)
@@ -141,6 +141,11 @@ class LawWorld(World):
                     op["val"] = float(np.round(rng.uniform(lo, hi), 4))
                 else:
                     op["field"] = {"form": form, "aseed": int(rng.integers(1 << 30)), "lo": lo, "hi": hi}
+        elif name == "scribble":
+            # overwrite, in place, the array a parameter read returned (no assignment: not a parameter change)
+            cands = [k for k, v in self.p.items() if k in SCALARS[self.kind] and isinstance(v, list)]
+            op["name"] = cands[int(rng.integers(len(cands)))]
+            op["factor"] = float(np.round(rng.uniform(1.2, 3.0), 2))
         elif name == "bad_write":
             # a write the setter must refuse: the law stays the one of the last accepted parameters
             cands = list(SCALARS[self.kind]) + ["thickness"]
@@ -262,6 +267,22 @@ class LawWorld(World):
             if "field" in op:
                 ctx.probe("field_parameter_" + op["field"]["form"])
             return "ok"
+
+        if name == "scribble":
+            if not isinstance(self.p.get(op["name"]), list):
+                return "skip"
+            with ctx.sut():
+                got = getattr(law, op["name"])
+            if isinstance(got, np.ndarray):
+                got *= op["factor"]
+                ctx.probe("scribbled_on_read_back_parameter")
+                with ctx.sut():
+                    again = getattr(law, op["name"])
+                if not np.array_equal(np.asarray(again), np.asarray(self.p[op["name"]], dtype=float)):
+                    raise Violation("parameter-changed-without-a-write", f"overwriting the array returned by reading {op['name']} changed the parameter the law holds (no assignment was made)")
+            # nothing was assigned: now, and after whatever is written next, the law is the one of the parameters set
+            C, _ = self._check_state("after overwriting in place the array returned by reading " + op["name"])
+            return "ok" if C is not None else "exc:both"
 
         if name == "bad_write":
             if op["name"] not in self.p:
